@@ -1715,6 +1715,13 @@ package restful
 //@ modifies r.statusCode, cb(r), headers, ghost $trace, ghost $g.wstatus, ghost $g.whcalls, ghost $g.accepted, ghost $g.lasterr, ghost $g.wcalls
 //@ callsite (*Response).WriteHeaderAndEntity ok: arg0 == r && arg1 == 200 && same(arg2, value)
 
+//@ func (*Response).WriteServiceError
+//@ props C05 C15
+//@ requires r != nil && r.ResponseWriter != nil && ghostInt("lock.ptr", entityAccessRegistry.protection) >= 0
+//@ requires registered: allRegistered(entityAccessRegistry, r.routeProduces)
+//@ modifies r.err, r.statusCode, cb(r), headers, ghost $trace, ghost $g.wstatus, ghost $g.whcalls, ghost $g.accepted, ghost $g.lasterr, ghost $g.wcalls
+//@ callsite (*Response).WriteHeaderAndEntity ok: arg0 == r && arg1 == httpStatus
+
 // WriteError: the status is recorded and sent, the result is the error of the body Write (C15)
 //@ func (*Response).WriteError
 //@ props C15
